@@ -524,11 +524,21 @@ class TimeBase(np.ndarray):
             super().__setattr__("_jd2_sliced", self.jd2[jd_item])
 
         try:
+            if isinstance(item, (int, np.int_)) and not isinstance(self.jd1, np.ndarray):
+                # A single epoch has no epochs to choose from: the index selects one of its fields (or is refused)
+                return np.asarray(self)[item]
+
             if isinstance(item, (int, np.int_)):
                 # Make a new time object if a single entry is requested
                 return self._scales()[self.scale].from_jds(self._jd1_sliced, self._jd2_sliced, self.fmt)
 
-            return super().__getitem__(item) # __array_finalize__ is called when this finishes
+            sliced = super().__getitem__(item) # __array_finalize__ is called when this finishes
+            if isinstance(sliced, TimeBase) and sliced.fmt:
+                fmt_ndim = self._formats()[sliced.fmt].ndim
+                if fmt_ndim > 1 and sliced.shape != np.shape(sliced.jd1) + (fmt_ndim,):
+                    # Some of the fields of a multi-column format were selected (t[:, 0]): these are numbers, not times
+                    return np.asarray(sliced)
+            return sliced
         finally:
             # The sliced Julian dates are handed over by now, other arrays made from this one must not pick them up
             super().__setattr__("_jd1_sliced", None)
